@@ -203,8 +203,11 @@ def check_locks(chk, tier):
     # (the caches of the aggregate stores are innermost locks of their own:
     # the first round takes those away, the rounds after it what used to be
     # rounds one and two before the caches were hooked)
-    reduced1 = leaf_reduce(leaf_reduce(segs))
+    reduced0 = leaf_reduce(segs)
+    reduced1 = leaf_reduce(reduced0)
     reduced = leaf_reduce(reduced1)
+    red0_path = os.path.join(chk.out, "segments_reduced0.ndjson")
+    vlib.write_ndjson(red0_path, reduced0)
     red_path = os.path.join(chk.out, "segments_reduced.ndjson")
     vlib.write_ndjson(red_path, reduced)
     red1_path = os.path.join(chk.out, "segments_reduced1.ndjson")
@@ -226,7 +229,8 @@ def check_locks(chk, tier):
     else:
         runs = [("flock", 2, seg_path), ("rwlock_wp", 2, seg_path),
                 ("rwlock_np", 2, seg_path),
-                ("flock", 3, seg_path), ("rwlock_wp", 3, seg_path),
+                # (3 threads: complete but for the store caches)
+                ("flock", 3, red0_path), ("rwlock_wp", 3, red0_path),
                 ("rwlock_wp", 3, red1_path),
                 ("flock", 4, red_path), ("rwlock_wp", 4, red_path)]
     for sem, n, path in runs:
@@ -955,8 +959,9 @@ def run(tier, seed):
         "(any new code that locks them is recorded as well); the signer "
         "maps are never held while another lock is acquired and are left "
         "out",
-        "2 threads (quick) / 2 and 3 threads (thorough) are checked on the "
-        "complete lock segments; 3 threads in the quick tier after two "
+        "2 threads are checked on the complete lock segments, 3 threads "
+        "(thorough) on the segments without the store caches (one round of "
+        "leaf-lock elimination); 3 threads in the quick tier after two "
         "rounds and 4 threads after three rounds of leaf-lock elimination "
         "(sound for deadlocks, see leaf_reduce in checks/c18.py); the "
         "model's flock and non-preferring RwLock semantics coincide",
